@@ -43,10 +43,8 @@ PutPost(cfg, s, k, v) ==
 BidiPutPost(cfg, s, k, v) ==
   LET rest == Without(s, Hits(cfg, s, k) \cup VHits(cfg, s, v)) IN
   IF cfg.sorted THEN SpliceAt(rest, SortedPos(cfg, rest, k), << <<k, v>> >>) ELSE Append(rest, <<k, v>>)
-RECURSIVE PutAll(_, _, _)
-PutAll(cfg, s, prs) == IF prs = <<>> THEN s
-                       ELSE PutAll(cfg, IF cfg.bidi THEN BidiPutPost(cfg, s, Head(prs)[1], Head(prs)[2])
-                                        ELSE PutPost(cfg, s, Head(prs)[1], Head(prs)[2]), Tail(prs))
+\* Put folded over the pairs, left to right
+PutAll(cfg, s, prs) == FoldLeft(LAMBDA acc, pr : IF cfg.bidi THEN BidiPutPost(cfg, acc, pr[1], pr[2]) ELSE PutPost(cfg, acc, pr[1], pr[2]), s, prs)
 
 \* Map: insert the mapped elements in iteration order into an empty container of the same configuration
 MapRes(cfg, seq, m) ==
